@@ -293,7 +293,7 @@ func genHTTPCase(r *kit.Rng, work string, id int) httpCase {
 	if r.Chance(0.6) {
 		n = 1 + r.Pick(6)
 	}
-	allowTrap := r.Chance(0.12)
+	allowTrap := r.Chance(0.5)
 	var lines []string
 	filler := func(max int, blanks bool) (out []string, hasBlank bool) {
 		k := r.Pick(max + 1)
@@ -1132,18 +1132,40 @@ func runC14(c *run.Ctx, s *kit.Summary) {
 		panic(err)
 	}
 
-	// 0. witnesses of the two known defects (DESIGN §8 #10, #11), replayed first
+	// 0. corpus/C14: the witnesses of the two former defects (DESIGN §8 #10, #11; fixed by
+	// 84aa239 and c9e79da) are replayed first, through the oracle and the model
 	{
 		st := &kit.Stream{Name: "c14.http"}
-		w1 := httpCase{Work: "", Src: "GET http://a/\nX: 1\n\nGET http://b/\nX: 2\n", Defaults: []dflt{{"X", []string{"d"}, 4}}, Legal: true,
-			Files: map[string][]byte{}, Targets: []specTarget{{Method: "GET", URL: "http://a/", Headers: []hdrLine{{"X", "1"}}}, {Method: "GET", URL: "http://b/", Headers: []hdrLine{{"X", "2"}}}}}
-		w2 := httpCase{Work: "", Src: "GET http://a/\n# c\nGET http://b/\n", Legal: true, CommentTrap: true, Files: map[string][]byte{},
-			Targets: []specTarget{{Method: "GET", URL: "http://a/"}, {Method: "GET", URL: "http://b/"}}}
-		for _, w := range []*httpCase{&w1, &w2} {
-			res := runHTTP(s, w, 4)
-			oracleHTTP(s, w, res)
-			s.Case("w:"+w.Src, true)
-			st.Add(httpOp(w, "c14.http", 4), res.line)
+		files, _ := filepath.Glob(filepath.Join(corpusDir(), "*.json"))
+		sort.Strings(files)
+		for _, f := range files {
+			b, err := os.ReadFile(f)
+			if err != nil {
+				panic(err)
+			}
+			var rec struct {
+				Kind  string          `json:"kind"`
+				Input json.RawMessage `json:"input"`
+			}
+			if err := json.Unmarshal(b, &rec); err != nil || !strings.HasPrefix(rec.Kind, "http") {
+				continue
+			}
+			var w httpCase
+			if err := json.Unmarshal(rec.Input, &w); err != nil {
+				panic(fmt.Sprint(f, ": ", err))
+			}
+			if w.Files == nil {
+				w.Files = map[string][]byte{}
+			}
+			n := len(w.Targets) + 2
+			res := runHTTP(s, &w, n)
+			oracleHTTP(s, &w, res)
+			s.Case("corpus:"+filepath.Base(f), true)
+			s.Count("corpus:replayed")
+			st.Add(httpOp(&w, "c14.http", n), res.line)
+		}
+		if s.Dist["corpus:replayed"] < 2 {
+			s.Violate(kit.Violation{Kind: "corpus_missing", What: "the regression witnesses in corpus/C14 were not found", Observed: corpusDir()})
 		}
 		st.Diff(c.Driver, s)
 	}
@@ -1365,6 +1387,16 @@ func runC14(c *run.Ctx, s *kit.Summary) {
 		}
 		_, _ = ops2, impl2
 	}
+}
+
+func corpusDir() string {
+	if exe, err := os.Executable(); err == nil {
+		d := filepath.Join(filepath.Dir(exe), "..", "corpus", "C14")
+		if _, err := os.Stat(d); err == nil {
+			return d
+		}
+	}
+	return "/verif/corpus/C14"
 }
 
 func bucket(n int) int {
